@@ -41,7 +41,7 @@ def register(_reg, _mt, STD):  # noqa: ANN001
         STD + " Stdlib lattice facts (issubclass, isabstract) are read from the interpreter's own stdlib classes, as a type checker consults typeshed.")
 
     _reg('C05', [agreement.rule_c05_r1, agreement.rule_c05_r2, agreement.rule_c05_r3, agreement.rule_c05_r4, agreement.rule_c05_r5,
-                 agreement.rule_c05_r6, purity.rule_c01_r3, extra.rule_no_ordering_refs, extra.rule_hashable_writers, dispatch.rule_c01_r1, agreement.rule_c05_r7],
+                 agreement.rule_c05_r6, purity.rule_c01_r3, extra.rule_no_ordering_refs, extra.rule_hashable_writers, dispatch.rule_c01_r1, agreement.rule_c05_r7, unions.rule_c12_r6],
          "Decides writer/reader agreement conditions without which the round trip cannot hold (value equality itself is not decided): what a "
          "scalar converter writes is a kind it reads and interchange scalars map to themselves; every constructing converter overrides "
          "into_data; into_data recurses through the same sub-converters as try_convert; for all 64 naming configurations of a field the "
@@ -117,7 +117,7 @@ def register(_reg, _mt, STD):  # noqa: ANN001
         "independent of history.",
         "normal-form comparison; CFG dominance in the member loops; provenance dataflow", "DESIGN.md section 13", STD)
 
-    _reg('C12', [unions.rule_c12_r1, unions.rule_c12_r2, unions.rule_c12_r3, unions.rule_c12_r5, escape.rule_c04_r2, _tagged_pairs, _tagged_escape, extra.rule_annotation_flush_args],
+    _reg('C12', [unions.rule_c12_r1, unions.rule_c12_r2, unions.rule_c12_r3, unions.rule_c12_r5, escape.rule_c04_r2, _tagged_pairs, _tagged_escape, extra.rule_annotation_flush_args, unions.rule_c12_r6],
          "Decides the structural clauses of C12: for each of the three layouts the writer's normal form (keys and values) equals what the two "
          "readers extract (tag and body), including the shape tests; exactly one variant is consulted, selected through the tag map, with no "
          "fallback loop; the tag-map store is dominated by the uniqueness test; Tagged refuses non-unions and passes the flattened members in "
@@ -184,7 +184,7 @@ def register(_reg, _mt, STD):  # noqa: ANN001
         "table equality against the stdlib source; normal-form comparison of generated closures", "DESIGN.md section 18", STD)
 
     _reg('C17', [classes_rules.rule_c17_r1, classes_rules.rule_c17_r2, classes_rules.rule_c17_r3, classes_rules.rule_c17_r4,
-                 classes_rules.rule_c15_r3, extra.rule_substitution_early_return, classes_rules.rule_c17_r6, forwarding.rule_spec_substitution_keeps_settings],
+                 classes_rules.rule_c15_r3, extra.rule_substitution_early_return, classes_rules.rule_c17_r6, forwarding.rule_spec_substitution_keeps_settings, classes_rules.rule_c17_r7, classes_rules.rule_c17_r8],
          "Most of C17 quantifies over class-hierarchy programs evaluated at class-creation time from runtime typing objects and is not "
          "statically decidable. Decided clauses: every option reaches the option record as None when unspecified (inherit unless overridden); "
          "type-variable substitution recurses into each form of the type grammar; field specs are merged over reversed(MRO) by in-place update "
@@ -197,7 +197,7 @@ def register(_reg, _mt, STD):  # noqa: ANN001
         "dataflow of option defaults; form-coverage check; write discipline on the merged spec table", "DESIGN.md section 19", STD)
 
     _reg('C18', [dispatch.rule_c18_r1_order, forwarding.rule_c18_r1b, forwarding.rule_c18_r2, forwarding.rule_c18_r3, forwarding.rule_c18_r4,
-                 classes_rules.rule_c17_r1, memo.rule_c10_r3, extra.rule_into_data_keeps_handlers, forwarding.rule_spec_substitution_keeps_settings],
+                 classes_rules.rule_c17_r1, memo.rule_c10_r3, extra.rule_into_data_keeps_handlers, forwarding.rule_spec_substitution_keeps_settings, forwarding.rule_union_writer_keeps_handlers],
          "Decides the structural clauses of C18: on the fall-through path of an ordinary class the dispatch landmarks occur in the documented "
          "order (call-level handlers, HasConverter, scalar tables, registered global handlers, structural arms); handler sets are merged "
          "call-level first, own class before enclosing, and a field's own converter wins; handlers are forwarded at every nested converter "
